@@ -163,7 +163,16 @@ def main(argv=None):
         for f in r.failures:
             if f.kind != 'verification':
                 continue
-            if prop in f.tags:
+            # annotation drift: an UNTAGGED inserted proof step (helper assert, ghost bookkeeping, untagged invariant) that fails inside a
+            # function whose text differs from the stored copy may only mean that the transferred annotations no longer fit the new
+            # code (ghost updates sit in branches that were restructured).  That is undecided, not a violation.  Tagged clauses
+            # (contract lines and invariants that state the property over the real state) and automatic obligations on real lines
+            # (overflow, index, callee precondition, termination) stay violations.
+            drift = 'auto' in f.labels and getattr(f, 'on_inserted', False) and f.function in (r.changed_items or [])
+            if prop in f.tags and drift:
+                undecided.append('%s: untagged proof step failed in the changed function %s (the transferred annotations may not fit the new code): %s @ woven line %s' %
+                                 (u.name, f.function, f.primary and f.primary[1][:120], f.primary and f.primary[0]))
+            elif prop in f.tags:
                 violations.append((r, f))
             elif not f.tags:
                 # an untagged failure (helper assert, lemma): the clauses behind it are not decided
